@@ -154,6 +154,9 @@ def standard(res, args, pid, prop_file, theorems, classes_note, partial=()):
     gen.regenerate_all()
     common.coq_make()
     common.standard_proof_cov(res, prop_file, theorems)
+    from lib import drvgen
+    if pid in drvgen.SRC_THEOREMS:
+        drvgen.src_obligations(res, pid)
     common.build_ocaml()
     if args.replay:
         rp = json.load(open(args.replay))
